@@ -23,7 +23,7 @@ VERIF = os.path.dirname(os.path.dirname(os.path.abspath(__file__)))
 PY = sys.executable
 
 TIERS = {
-    'C16': {'quick': {'runs': 2400, 'det': 48, 'sweeps': 15, 'max_seconds': 700},
+    'C16': {'quick': {'runs': 2400, 'det': 48, 'sweeps': 17, 'max_seconds': 700},
             'thorough': {'runs': 60000, 'det': 512, 'sweeps': 400, 'max_seconds': 5000}},
     'C17': {'quick': {'runs': 6000, 'det': 48, 'fresh': 40, 'max_seconds': 700},
             'thorough': {'runs': 150000, 'det': 512, 'fresh': 300, 'max_seconds': 5000}},
@@ -124,6 +124,8 @@ def _sweep(prop, tier, master, j, part):
         # that touch process-global state -- the windows that lie inside one source line
         tr = ctx.oracle(spec['threads'][0][0], want_trace=True, gran='instr')['trace'] or []
         ks = sorted({j for j, l in enumerate(tr) if l in ctx.hot} | {j + 1 for j, l in enumerate(tr) if l in ctx.hot})
+        if len(tr) + 1 <= (1200 if tier == 'quick' else 6000):
+            ks = list(range(len(tr) + 1))        # short call: every bytecode boundary, not only those in hot lines
     else:
         ks = list(range(la + 1))
     exhaustive = True
